@@ -228,6 +228,9 @@ impl Property for C01 {
     fn chunk(&self, _tier: Tier) -> u64 {
         250
     }
+    fn in_domain(&self, case: &Case) -> bool {
+        case.requests.iter().all(|r| r.target.starts_with('/') && r.target.is_ascii() && !r.target.contains(' '))
+    }
     fn strategy(&self, tier: Tier) -> BoxedStrategy<Case> {
         let cfg = GenCfg::routing(tier);
         (gen_app::app_strategy(cfg), any::<u64>(), vec(gen_app::recipe(), 1..=25))
